@@ -5,6 +5,7 @@ open Conv
 module G = GroupAdmission
 module S = GroupRtspShell
 module A = GroupApiRequest
+module D = GroupInputContent
 
 let int_tok s = (* n5 = -5 *)
   if String.length s > 0 && s.[0] = 'n' then - (int_of_string (String.sub s 1 (String.length s - 1)))
@@ -181,37 +182,57 @@ let run_case cfg ops =
   (* the RTSP shell follows the repaired tree unless the pinned one (or shell=old) is asked for *)
   let fsh = not (fx == G.pinned_tree) && not (String.length cfg >= 9 &&
               (let rec has i = i + 9 <= String.length cfg && (String.sub cfg i 9 = "shell=old" || has (i + 1)) in has 0)) in
-  let st = ref S.init_cstate in
+  (* the SDP of a refused RTSP relay pull reaches the group on the pinned tree (or with sdp=old) only *)
+  let has_cfg k = let n = String.length k in
+    let rec has i = i + n <= String.length cfg && (String.sub cfg i n = k || has (i + 1)) in has 0 in
+  let fsdp = not (fx == G.pinned_tree) && not (has_cfg "sdp=old") in
+  let ds = ref D.init_dstate in
+  let owner_name = function None -> "-" | Some (D.OConn n) -> conn_name n | Some (D.OAtt (s, i)) -> att_name s i in
   let outs = Stdlib.List.map (fun op ->
+      let st = ref !ds.D.ds_shell in
       (* a request through the HTTP API is the event the handler turns it into, or nothing at all *)
       let api = parse_api op in
-      let pc = match api with
-        | Some (c, _) -> (match A.api_event c with Some e -> Some (S.CE e) | None -> None)
-        | None -> parse_cevent op in
-      match pc with
+      let f = Array.of_list (String.split_on_char '.' op) in
+      let pd = match f.(0) with
+        | "sdp" -> Some (D.DSdp (n_of f.(1)))                              (* sdp.S: whose SDP does the group of S hold *)
+        | "psuccm" -> Some (D.DPullSuccMedia (n_of f.(1), n_of f.(2)))      (* psucc where the origin sends media right behind its answer *)
+        | _ ->
+          (match api with
+           | Some (c, _) -> (match A.api_event c with Some e -> Some (D.DE (S.CE e)) | None -> None)
+           | None -> (match parse_cevent op with Some ce -> Some (D.DE ce) | None -> None)) in
+      match pd with
       | None -> if api <> None then "1002/" ^ show_view !st.S.cs_base ^ "/-" else "unknown-op"
-      | Some ce ->
+      | Some de ->
         (* attempt index 0 = the latest attempt of that stream *)
         let latest s i = if int_of_n i <> 0 then i else
             (match G.lookup s !st.S.cs_base.G.st_cnt with Some c -> c | None -> i) in
-        let ce = match ce with
-          | S.CE (G.EPullSucc (s, i)) -> S.CE (G.EPullSucc (s, latest s i))
-          | S.CE (G.EPullFail (s, i)) -> S.CE (G.EPullFail (s, latest s i))
-          | S.CE (G.EPullDone (s, i)) -> S.CE (G.EPullDone (s, latest s i))
-          | _ -> ce in
-        let shown = match ce with
-          | S.CE e -> e
-          | S.CAnnounce (s, _, n, d) -> G.ERtspPub (s, n, d)
-          | S.CDescribe (s, _, n, d) -> G.ERtspSub (s, n, d)
-          | S.CRtmpCmd (s, n, _) -> G.ERtmpPub (s, n, false) in
+        let de = match de with
+          | D.DE (S.CE (G.EPullSucc (s, i))) -> D.DE (S.CE (G.EPullSucc (s, latest s i)))
+          | D.DE (S.CE (G.EPullFail (s, i))) -> D.DE (S.CE (G.EPullFail (s, latest s i)))
+          | D.DE (S.CE (G.EPullDone (s, i))) -> D.DE (S.CE (G.EPullDone (s, latest s i)))
+          | D.DPullSuccMedia (s, i) -> D.DPullSuccMedia (s, latest s i)
+          | _ -> de in
+        let shown = match de with
+          | D.DE (S.CE e) -> e
+          | D.DE (S.CAnnounce (s, _, n, d)) -> G.ERtspPub (s, n, d)
+          | D.DE (S.CDescribe (s, _, n, d)) -> G.ERtspSub (s, n, d)
+          | D.DE (S.CRtmpCmd (s, n, _)) -> G.ERtmpPub (s, n, false)
+          | D.DPullSuccMedia (s, i) -> G.EPullSucc (s, i)
+          | D.DSdp _ -> G.EDispose in
         let suffix = match api with
-          | Some (A.AStartRtpPub _, sfx) -> sfx   (* appended below only when the publisher was accepted *)
           | Some (_, sfx) -> sfx
           | None -> "" in
-        let ((st1, r), ns) = S.cstep fsh fx cf !st ce in
-        st := st1;
+        let ((ds1, dr), ns) = D.dstep fsdp fsh fx cf !ds de in
+        ds := ds1;
+        let st1 = ds1.D.ds_shell in
         let ev = if ns = [] then "-" else String.concat "+" (Stdlib.List.map show_notif ns) in
-        let res = show_result shown r in
+        let res = match dr with
+          | D.DR r -> show_result shown r
+          | D.DRMedia (G.RBad, _) -> "x"
+          | D.DRMedia (r, l) ->
+            show_result shown r ^ "~m" ^ String.concat "+" (Stdlib.List.sort compare (Stdlib.List.map conn_name l))
+          | D.DRSdp o -> owner_name o in
+        (* the settings suffix of start_rtp_pub is there only when the publisher was accepted *)
         let suffix = match api with
           | Some (A.AStartRtpPub _, _) when res <> "0" -> ""
           | _ -> suffix in
